@@ -85,6 +85,9 @@ func checkProtocol(ev []mon.TraceEv) (violations []string, st protoStats) {
 				if s.state == "published" {
 					bad(e, "creation started for a name that is already published")
 				}
+				if s.depth > 0 {
+					bad(e, "a second, nested creation of a name that is already being created (its early reference was not available to the lookup)")
+				}
 				s.state, s.early, s.earlyRuns = "creating", 0, 0
 				s.depth++
 				st.creations++
@@ -308,12 +311,18 @@ func (p c04) driven(c *core.Ctx) {
 		top := 3 + c.Rng.Intn(8)
 		for i := 0; i < top; i++ {
 			name := d.names[c.Rng.Intn(len(d.names))]
-			switch c.Rng.Intn(5) {
+			switch c.Rng.Intn(6) {
 			case 0:
 				allow := c.Rng.Intn(2) == 0
 				d.log("get(%s,%v)", name, allow)
 				tr.GetSingleton(name, allow)
 			case 1:
+				tr.IsSingletonCurrentlyInCreation(name)
+			case 5:
+				// get-or-create without a preceding lookup (a second caller that missed in its own lookup
+				// before the first one published): allowed by the interface whenever the name is not on the stack
+				d.log("create-direct(%s)", name)
+				d.create(name)
 				tr.IsSingletonCurrentlyInCreation(name)
 			default:
 				d.log("doGet(%s)", name)
@@ -414,6 +423,11 @@ func (p c04) traced(c *core.Ctx) {
 	sc := RandomGraph(c.Rng, GraphOpts{MinN: 2, MaxN: 10, Types: world.TypesAll, PCycle: 0.8, Chords: 2, ByTypeSlice: 0.3, QualSlice: 0.2, PUnnamed: 0.3})
 	var extra []any
 	var plan map[string]world.SubPlan
+	if c.Index%3 != 2 {
+		// service-locator style lookups from inside initialization callbacks (the first request for a
+		// component's early reference may then arrive while it is being initialised)
+		c.Count("init_lookups", AddInitLookups(c.Rng, sc, 0.3))
+	}
 	if c.Index%3 == 2 {
 		// substituting post-processor (early references are wrappers) on an interface-only graph
 		sc = RandomGraph(c.Rng, GraphOpts{MinN: 2, MaxN: 7, Types: plainAB, PCycle: 1, Chords: 2, ByTypeSlice: 0.2, OnlyIface: true, PUnnamed: 0.3})
@@ -448,7 +462,7 @@ func (p c04) traced(c *core.Ctx) {
 		}
 	}
 	r := world.Start(sc, world.Options{Extra: extra})
-	if r.Outcome() == "panic" || r.Outcome() == "diverged" {
+	if abnormal(r.Outcome()) {
 		c.Count("abnormal_starts_skipped", 1)
 		return
 	}
